@@ -28,8 +28,10 @@ def c11_plan(tier):
         }
     return rc, {
         "mc": G.consts(MaxVer=5, Features=feats | {"compact"}, Crashers={"a"}),
+        # (suspicion flips among three nodes do not finish within the hour: the 3-node model is the relay of a
+        # leave / crash + expiry; suspicion is exhaustive in the 2-node model above and sampled in the walks)
         "mc2": G.consts(Node={"a", "b", "c"}, MaxVer=2, MaxSlots=1, Writers={"a"}, Crashers={"a"},
-                        Features=feats, Budgets={99}),
+                        Features={"leave", "expire", "lose"}, Budgets={99}),
         "covers": [G.consts(MaxVer=4, MaxSlots=1, Features=feats, Crashers={"a"})],
         "sim": (G.consts(Node={"a", "b", "c", "d"}, MaxVer=6, MaxSlots=4, Writers={"a", "c"}, Crashers={"c", "d"},
                          Features=feats | {"compact", "dup", "shuffle"}, Budgets={2, 3, 99}), 3000, 80),
